@@ -108,7 +108,7 @@ def token_cast_checks(rnd, n):
     # the non-scalar token forms: "!" (existence), /regex/ (slashes stripped), JSON-like values and whole JSON filters; a JSON-like key is refused
     forms = [(["k"], {"k": {"$exists": True}}), (["k", "!"], {"k": {"$exists": True}}), (["k", "/ab+c/"], {"k": {"$regex": "ab+c"}}), (["k", "//"], {"k": {"$regex": ""}}),
              (["k", "//data/"], {"k": {"$regex": "/data"}}), (["k", "/a//"], {"k": {"$regex": "a/"}}), (["k", "///"], {"k": {"$regex": "/"}}), (["k", "/ x /"], {"k": {"$regex": " x "}}),
-             (["k", "{x]"], {"k": "{x]"}), (["k", "[0,1}"], {"k": "[0,1}"}), (["k", "{"], {"k": "{"}), (["k", "/"], {"k": {"$regex": ""}}) if False else (["k", "]"], {"k": "]"}),
+             (["name", '{"$eq": "it\'s"}'], {"name": {"$eq": "it's"}}), (["name", '["its\',\'it"]'], {"name": ["its','it"]}), (["k", "{x]"], {"k": "{x]"}), (["k", "[0,1}"], {"k": "[0,1}"}), (["k", "{"], {"k": "{"}), (["k", "/"], {"k": {"$regex": ""}}) if False else (["k", "]"], {"k": "]"}),
              (["k", '{"$lt": 3}'], {"k": {"$lt": 3}}), (["k", "[1, 2]"], {"k": [1, 2]}), (['{"a": {"$gt": 1}}'], {"a": {"$gt": 1}}),
              (["a", "1", "b", "/x/", "c"], {"a": 1, "b": {"$regex": "x"}, "c": {"$exists": True}}), (["a.b", "true", "doc.c", "null"], {"a.b": True, "doc.c": None})]
     for toks, want in forms:
